@@ -42,7 +42,40 @@ class Alphabet:
         for label, pred in self.calls:
             if pred(t):
                 return label
+        fx = getattr(self, "_fx", None)
+        if fx is not None and t.get("callee_local") and t.get("callee"):
+            return self.wrapper_label(fx, t.get("resolved") or t["callee"])
         return None
+
+    def wrapper_label(self, fx, name, _depth=0):
+        """a crate-local synchronous function that does nothing but make one labelled call and hand back its result
+        (`Task::run(self, a, c) = (self.0)(a, c)`) counts as that call: wrapping a value in a newtype with a forwarding
+        method does not change the event language"""
+        cache = self.__dict__.setdefault("_wrap_cache", {})
+        if name in cache:
+            return cache[name]
+        cache[name] = None
+        g = fx.fn(name)
+        if g is None or g.get("is_async") or g["kind"] not in ("fn", "assoc_fn") or _depth > 2:
+            return None
+        gb = Body(g)
+        labelled = []
+        for bi, ct in gb.normal_calls():
+            lab = None
+            for label, pred in self.calls:
+                if pred(ct):
+                    lab = label
+                    break
+            if lab is None and ct.get("callee_local") and ct.get("callee"):
+                lab = self.wrapper_label(fx, ct.get("resolved") or ct["callee"], _depth + 1)
+            if lab:
+                labelled.append((bi, lab))
+        if len(labelled) != 1:
+            return None
+        os_ = gb.origins([0])
+        if os_ and all(o.kind == "call" and o.site == (labelled[0][0],) and not o.proj for o in os_):
+            cache[name] = labelled[0][1]
+        return cache[name]
 
 
 def callee_is(*names):
@@ -64,6 +97,7 @@ class NFA:
         self.edges = defaultdict(list)  # node -> [(label|None, dst, loc)]
         self.entry = None
         self.nodes = set()
+        self.has_corr = False  # carries iret:/isw: correlation events (see check)
 
     def add(self, src, label, dst, loc=None):
         self.edges[src].append((label, dst, loc))
@@ -105,11 +139,13 @@ class NFA:
         return g
 
 
-def build(body: Body, alpha: Alphabet, fx=None, depth=0, _prefix=(), _sinks=None, _stack=(), _into=None):
+def build(body: Body, alpha: Alphabet, fx=None, depth=0, _prefix=(), _sinks=None, _stack=(), _into=None, _retval=False):
     """Event automaton of `body`. With `fx` and depth > 0, unlabelled calls to crate-local functions and unlabelled
     awaits of crate-local coroutines whose own automaton contains call/done events are inlined (bounded depth, no
     recursion): extracting a helper out of a loop does not change the language."""
     top = _into is None
+    if fx is not None and getattr(alpha, "_fx", None) is None:
+        alpha._fx = fx
     n = NFA(body.name) if top else _into
     ret_s, cancel_s, unwind_s = _sinks or (RET, CANCEL, UNWIND)
 
@@ -117,7 +153,8 @@ def build(body: Body, alpha: Alphabet, fx=None, depth=0, _prefix=(), _sinks=None
         return (bi, pos) if not _prefix else (_prefix, bi, pos)
     if top:
         n.entry = node(0, 0)
-    retval = alpha.retval and top
+    # a spliced callee whose result is written straight into the caller's return place produces the caller's result
+    retval = alpha.retval and (top or _retval)
     for bi, blk in enumerate(body.blocks):
         if blk["c"]:
             continue
@@ -125,9 +162,18 @@ def build(body: Body, alpha: Alphabet, fx=None, depth=0, _prefix=(), _sinks=None
         cur = node(bi, 0)
         n.nodes.add(cur)
         # statement events
-        if retval or alpha.stmt_fn:
+        if retval or alpha.stmt_fn or not top:
             for si, st in enumerate(blk["s"]):
                 lab = None
+                if not top and st["k"] == "assign" and st["p"] == [0]:
+                    # a spliced callee says which variant it hands back: the caller's match on that value follows suit
+                    rl = retval_label(body, st["r"], None)
+                    if rl and rl not in ("retval:move", "retval:agg"):
+                        nxt = node(bi, pos + 1)
+                        n.add(cur, "iret:%s|%s" % (body.name, rl[len("retval:"):]), nxt, st.get("l"))
+                        n.has_corr = True
+                        cur = nxt
+                        pos += 1
                 if retval and st["k"] == "assign" and st["p"] == [0]:
                     lab = retval_label(body, st["r"], alpha)
                 if lab is None and alpha.stmt_fn and st["k"] == "assign":
@@ -164,7 +210,7 @@ def build(body: Body, alpha: Alphabet, fx=None, depth=0, _prefix=(), _sinks=None
                     cb = Body(cal)
                     if _interesting(cb, alpha):
                         sub = _prefix + ((body.name, bi),)
-                        build(cb, alpha, fx, depth - 1, sub, (tgt(t["target"]), cancel_s, unwind_s), _stack + (body.name,), n)
+                        build(cb, alpha, fx, depth - 1, sub, (tgt(t["target"]), cancel_s, unwind_s), _stack + (body.name,), n, _retval=(retval and t["dest"] == [0]))
                         n.add(cur, None, (sub, 0, 0), loc)
                         spliced = True
             if not spliced and t["target"] is not None:
@@ -173,6 +219,7 @@ def build(body: Body, alpha: Alphabet, fx=None, depth=0, _prefix=(), _sinks=None
                 n.add(cur, "unwind", unwind_s, loc)
         elif k == "switch":
             labels = switch_labels(body, bi, t, alpha)
+            corr = _corr_labels(fx, body, t) if (fx is not None and depth > 0) else {}
             ready = None
             if fx is not None and depth > 0:
                 ready = _poll_ready(body, t)
@@ -187,8 +234,20 @@ def build(body: Body, alpha: Alphabet, fx=None, depth=0, _prefix=(), _sinks=None
                             build(cb, alpha, fx, depth - 1, sub, (tgt(b), cancel_s, unwind_s), _stack + (body.name,), n)
                             n.add(cur, None, (sub, 0, 0), loc)
                             continue
+                if corr.get(val):
+                    mid = ("corr", _prefix, bi, val)
+                    n.add(cur, corr[val], mid, loc)
+                    n.add(mid, lab, tgt(b), loc)
+                    n.has_corr = True
+                    continue
                 n.add(cur, lab, tgt(b), loc)
-            n.add(cur, labels.get("otherwise"), tgt(t["otherwise"]), loc)
+            if corr.get("otherwise"):
+                mid = ("corr", _prefix, bi, "otherwise")
+                n.add(cur, corr["otherwise"], mid, loc)
+                n.add(mid, labels.get("otherwise"), tgt(t["otherwise"]), loc)
+                n.has_corr = True
+            else:
+                n.add(cur, labels.get("otherwise"), tgt(t["otherwise"]), loc)
         elif k == "yield":
             n.add(cur, None, tgt(t["resume"]), loc)
             if t["drop"] is not None:
@@ -224,6 +283,48 @@ def _local_sync_callee(fx, t):
         if f is not None and f["kind"] in ("fn", "assoc_fn") and not f.get("is_async") and "pre" in f:
             return f
     return None
+
+
+def _corr_labels(fx, body, t):
+    """a match on the enum a (possibly spliced) crate-local callee returned: switch value -> `isw:<callee>|<variant>`"""
+    o = t["o"]
+    if o["k"] not in ("copy", "move"):
+        return {}
+    origs = body.origins(o["p"])
+    discr = [x for x in origs if x.kind == "discr"]
+    if not discr or len(discr) != len(origs):
+        return {}
+    st = body.blocks[discr[0].site[0]]["s"][discr[0].site[1]]
+    r = st["r"]
+    variants = r.get("variants", {})
+    if len(r.get("p", [])) != 1:
+        return {}  # only the returned value itself (not one of its fields)
+    callee = None
+    for so in body.origins(r["p"]):
+        c = None
+        if so.kind == "await" and not so.proj:
+            co = _awaited_local_coroutine(fx, body, so.site[0])
+            c = co["def"] if co is not None else None
+        elif so.kind == "call" and not so.proj:
+            cal = _local_sync_callee(fx, body.call_at(so))
+            c = cal["def"] if cal is not None else None
+        if c is None or (callee is not None and c != callee):
+            return {}
+        callee = c
+    if callee is None:
+        return {}
+    out = {}
+    seen = set()
+    for (val, _b) in t["targets"]:
+        vn = variants.get(val)
+        if vn is None:
+            return {}
+        out[val] = "isw:%s|%s" % (callee, vn)
+        seen.add(vn)
+    rest = [v for v in variants.values() if v not in seen]
+    if rest:
+        out["otherwise"] = "isw:%s|{%s}" % (callee, ",".join(sorted(rest)))
+    return out
 
 
 def _poll_ready(body, t):
@@ -359,6 +460,12 @@ def switch_labels(body, bi, t, alpha):
                     lab = alpha.call_label(ct)
                     if lab:
                         labs.add(lab)
+            if not labs and getattr(alpha, "upvar_futs", None):
+                # the awaited future is a captured variable of this coroutine (possibly behind map / fuse adapters)
+                for pl in polls:
+                    os_ = body.polled_future_origins(pl.site[0])
+                    if os_ and all(o.kind == "upvar" and o.site in alpha.upvar_futs for o in os_):
+                        labs |= {alpha.upvar_futs[o.site] for o in os_}
             if not labs and alpha.fut_types:
                 for pl in polls:
                     pt = body.blocks[pl.site[0]]["t"]
@@ -375,7 +482,10 @@ def switch_labels(body, bi, t, alpha):
                         labels[val] = "done:" + lab
                     elif vn == "Pending":
                         labels[val] = "pend:" + lab
-            return labels
+                return labels
+            if not (alpha.adts.get(adt) or (alpha.adt_fn and alpha.adt_fn(adt))):
+                return labels
+            # a hand-written poll function matching on the Poll it got: an ordinary discriminant switch
         short_adt = alpha.adts.get(adt) or (alpha.adt_fn(adt) if (alpha.adt_fn and adt) else None)
         if short_adt:
             srcs = _src_labels(body, scrut_origs, alpha)
@@ -457,8 +567,46 @@ class Err:
         self.msg = msg
 
 
+_INFEASIBLE = object()
+
+
+class _Correlated(Spec):
+    """wraps a monitor: a spliced callee announces the enum variant it returns (`iret:<callee>|<V>`), the caller's match on
+    that value (`isw:<callee>|<V'>`) is only followed when the variants agree — paths that pair the callee's one outcome
+    with the caller's reaction to another do not exist"""
+
+    def __init__(self, inner):
+        self.inner = inner
+        self.init = (inner.init, ())
+
+    def step(self, st, label):
+        ist, corr = st
+        if label.startswith("iret:"):
+            callee, v = label[5:].rsplit("|", 1)
+            return (ist, tuple(sorted(dict(corr, **{callee: v}).items())))
+        if label.startswith("isw:"):
+            callee, v = label[4:].rsplit("|", 1)
+            have = dict(corr).get(callee)
+            if have is not None:
+                if v.startswith("{"):
+                    if have not in v[1:-1].split(","):
+                        return _INFEASIBLE
+                elif have != v:
+                    return _INFEASIBLE
+            return st
+        ns = self.inner.step(ist, label)
+        if isinstance(ns, Err) or ns is _INFEASIBLE:
+            return ns
+        return (ns, corr)
+
+    def at_end(self, st, node):
+        return self.inner.at_end(st[0], node)
+
+
 def check(nfa: NFA, spec: Spec, max_viol=3):
     """BFS over the product. Returns (violations, product_states). Each violation: dict(msg, trace)."""
+    if getattr(nfa, "has_corr", False):
+        spec = _Correlated(spec)
     start = (nfa.entry, spec.init)
     pred = {start: None}
     dq = deque([start])
@@ -480,6 +628,8 @@ def check(nfa: NFA, spec: Spec, max_viol=3):
                 ns = st
             else:
                 ns = spec.step(st, label)
+                if ns is _INFEASIBLE:
+                    continue
                 if isinstance(ns, Err):
                     if ns.msg not in seen_msgs:
                         seen_msgs.add(ns.msg)
